@@ -35,6 +35,15 @@ add("C13", "exploration",
     "binding classes computed with inspect.signature().bind + apply_defaults and the documented value identifications; positional-or-keyword parameters only",
     "runtime monitoring: signature capture at Store.sync_paths + partition oracle over spellings", "E2-values")
 
+add("C08", "exploration",
+    "Lock-step dictionary-model monitor at the Store API for MemoryStore, LocalFileStore, cache-wrapped local and DBFS over a fake dbutils: bulk commits of all 819 paths of <=3 segments over a hostile segment alphabet (each with its own key, resolved back), random operation sequences with reopen, the same paths through dds.keep/dds.load, and a no-follow tree walk for containment. Held on the sequences observed.",
+    "path sets per store are prefix-free; fake dbutils stands in for DBFS; keys stored with one value only",
+    "runtime monitoring: reference-model (dictionary) monitor at the Store API + file-tree containment walk", "E4-store")
+add("C12", "exploration",
+    "Lock-step monitor: LRUCacheStore(S1,n) and a bare twin S2 get the same operations; every has/fetch/fetch_paths answer compared (all sequences up to length 3-4 over 14 operations x 5 capacities x 2 underlying stores, plus random length-30 sequences); fetched objects tracked by weak references and counted after gc against the capacity. Held on the sequences observed.",
+    "content-addressed discipline; object liveness observed through weakrefs after gc.collect() in CPython",
+    "runtime monitoring: lock-step differential monitor (wrapped vs bare store) + weakref liveness bound", "E4-store")
+
 NOT_YET = {}
 
 
